@@ -1,8 +1,8 @@
 """C06 - waiting consumers are woken: the actor's notification duty (handler level)."""
 from props.actor_steps import *
 
-OUTSIDE = ["the interleaving of the availability event with the consumer's check-then-wait (two tasks)",
-           'hand-on of a wake-up between several consumers; cancelled consumers; the async_stream loop of StreamingPull']
+OUTSIDE = ['more than two consumers / two availability events per race (Tier 4 bound); cancelled consumers',
+           'interleavings finer than shared-operation granularity inside one actor step (the actor handles one request at a time: A1)']
 ASSUMPTIONS = ['tokio Notify::notify_one stores a permit when no waiter is registered (documented contract)']
 
 
@@ -32,13 +32,13 @@ from props.service import sym_managers, abstract_name_parsers, proto, request, s
 class PullRace(Obligation):
     tier = 'T4'
 
-    def __init__(self, ctx, consumers=1, events=('post',)):
-        self.consumers, self.events = consumers, events
+    def __init__(self, ctx, consumers=1, events=('post',), n_out=1):
+        self.consumers, self.events, self.n_out = consumers, events, n_out
         self.id = 'C06.d-%dc-%s' % (consumers, '+'.join(events))
         self.desc = ('%d blocked unary Pull handler(s) (real handler MIR incl. select!) interleaved at every shared operation (signal creation, '
                      'mailbox send, signal poll) with %s handled atomically by the actor: no consumer is left parked while the backlog is non-empty'
                      % (consumers, ' and '.join(events)))
-        self.bounds = {'consumers': consumers, 'events': list(events), 'backlog_before': '<= 1', 'granularity': 'Notify call / mailbox send / actor step'}
+        self.bounds = {'consumers': consumers, 'events': list(events), 'backlog_before': '<= 1', 'outstanding_before': '<= %d' % n_out, 'granularity': 'Notify call / mailbox send / actor step'}
         self.max_paths = 200000
         self.unroll = 8
 
@@ -46,7 +46,7 @@ class PullRace(Obligation):
         ctx = ip.ctx
         install_tokens(ctx)
         p.timers_never_fire = True
-        st = sym_actor(ctx, p, 1, 1, deleted=False)
+        st = sym_actor(ctx, p, self.n_out, 1, deleted=False)
         # one shared observer (the consumers' signal and the actor's notify are the same Notify)
         notify = NotifyT4('messages_available')
         obs_cell = Cell(mk(ctx, 'SubscriptionObserver', notify_messages_available=notify,
@@ -118,12 +118,8 @@ class PullRace(Obligation):
             act.gen = gen()
             acts.append(act)
         # the name each consumer asks for is the registered subscription
-        for a_ in acts:
-            try:
-                next(a_.gen)
-            except StopIteration as e:
-                a_.state = 'done'
-                a_.result = e.value
+        from t4 import prime
+        prime(acts)
         steps = run_activities(p, acts)
         return {'st': st, 'acts': acts, 'stok': stok, 'notify': notify}
 
@@ -161,7 +157,14 @@ _old_c06 = obligations
 
 
 def obligations(ctx, cfg):
-    obs = _old_c06(ctx, cfg) + [PullRace(ctx, 1, ('post',))]
+    from props.races import ConsumerRace
+    obs = _old_c06(ctx, cfg) + [PullRace(ctx, 1, ('post',)),
+                                ConsumerRace(ctx, 'C06.e-race-pull-nack', ['pull'], ['nack'], n_out=1, n_back=0),
+                                ConsumerRace(ctx, 'C06.e-race-pull-expire', ['pull'], ['expire'], n_out=1, n_back=0),
+                                ConsumerRace(ctx, 'C06.e-race-stream-post', ['stream'], ['post'], n_out=0, n_back=0)]
     if cfg['tier'] == 'thorough':
-        obs += [PullRace(ctx, 1, ('post', 'post')), PullRace(ctx, 2, ('post',))]
+        obs += [PullRace(ctx, 1, ('post', 'post')), PullRace(ctx, 2, ('post',), n_out=0),
+                ConsumerRace(ctx, 'C06.e-race-stream-nack', ['stream'], ['nack'], n_out=1, n_back=0),
+                ConsumerRace(ctx, 'C06.e-race-stream-expire', ['stream'], ['expire'], n_out=1, n_back=0),
+                ConsumerRace(ctx, 'C06.e-race-pull-post-nack', ['pull'], ['post', 'nack'], n_out=1, n_back=0)]
     return obs
